@@ -33,7 +33,8 @@ META = {
                "six synthetic values (declared by the harness through the library's metaclass in a lockable "
                "bank) whose locations mix writable, read-only, untyped and lockable memory types, and two whose "
                "locations are declared in another order than ascending address",
-               "write(value, force_unlock / ignore_feedback) for strings and numbers against a unit that stays locked"],
+               "write(value, force_unlock / ignore_feedback) for strings and numbers against a unit that stays locked",
+               "the lock / latch byte of every bank written on its own: stored exactly, failures reported"],
     "stubs": ["isinstance/int/bytes shims"],
     "outside": ["several faults in one write", "units violating 9.10 in other ways",
                 "NVM_RW_P (vendor-protected) locations - none declared"],
